@@ -380,4 +380,642 @@ var builtinScripts = []string{
   }
  ]
 }`,
+	`{
+ "name": "stale offset file: table 1 (WHERE d = 'x') skips the first entries while its memstore is empty and an idle flush rewrites only its 'offset' file; stored points follow and go to filestores; followers restart cleanly and from a crash image (witness of Zeno.C12.offset_file_wins_reapplies: recovery must take the per-source maximum of offset file and filestore header)",
+ "P": 2,
+ "leaders": 1,
+ "perPartition": 2,
+ "tables": [
+  {
+   "def": "a *",
+   "partitionBy": []
+  },
+  {
+   "def": "b * where=0",
+   "partitionBy": []
+  }
+ ],
+ "points": [
+  {
+   "dims": {
+    "d": "y",
+    "g": "1"
+   },
+   "vals": {
+    "a": 1,
+    "b": 2
+   },
+   "sec": 0,
+   "leader": 0
+  },
+  {
+   "dims": {
+    "d": "z",
+    "g": "1"
+   },
+   "vals": {
+    "a": 2,
+    "b": 1
+   },
+   "sec": 0,
+   "leader": 0
+  },
+  {
+   "dims": {
+    "d": "w",
+    "g": "2"
+   },
+   "vals": {
+    "a": 3,
+    "b": 4
+   },
+   "sec": 1,
+   "leader": 0
+  },
+  {
+   "dims": {
+    "d": "y",
+    "g": "3"
+   },
+   "vals": {
+    "a": 1,
+    "b": 1
+   },
+   "sec": 1,
+   "leader": 0
+  },
+  {
+   "dims": {
+    "d": "v"
+   },
+   "vals": {
+    "a": 5,
+    "b": 2
+   },
+   "sec": 2,
+   "leader": 0
+  },
+  {
+   "dims": {
+    "d": "z",
+    "g": "4"
+   },
+   "vals": {
+    "a": 2,
+    "b": 2
+   },
+   "sec": 2,
+   "leader": 0
+  },
+  {
+   "dims": {
+    "d": "x",
+    "g": "1"
+   },
+   "vals": {
+    "a": 4,
+    "b": 8
+   },
+   "sec": 3,
+   "leader": 0
+  },
+  {
+   "dims": {
+    "d": "x",
+    "g": "2"
+   },
+   "vals": {
+    "a": 1,
+    "b": 1
+   },
+   "sec": 3,
+   "leader": 0
+  },
+  {
+   "dims": {
+    "d": "x",
+    "g": "3"
+   },
+   "vals": {
+    "a": 1,
+    "b": 3
+   },
+   "sec": 4,
+   "leader": 0
+  },
+  {
+   "dims": {
+    "d": "x",
+    "g": "4"
+   },
+   "vals": {
+    "a": 2,
+    "b": 5
+   },
+   "sec": 4,
+   "leader": 0
+  },
+  {
+   "dims": {
+    "d": "x",
+    "g": "5"
+   },
+   "vals": {
+    "a": 7,
+    "b": 5
+   },
+   "sec": 5,
+   "leader": 0
+  },
+  {
+   "dims": {
+    "d": "x",
+    "g": "6"
+   },
+   "vals": {
+    "a": 2,
+    "b": 6
+   },
+   "sec": 5,
+   "leader": 0
+  },
+  {
+   "dims": {
+    "d": "x"
+   },
+   "vals": {
+    "a": 3,
+    "b": 3
+   },
+   "sec": 6,
+   "leader": 0
+  },
+  {
+   "dims": {
+    "d": "x",
+    "g": "7"
+   },
+   "vals": {
+    "a": 1,
+    "b": 9
+   },
+   "sec": 6,
+   "leader": 0
+  },
+  {
+   "dims": {
+    "d": "x",
+    "g": "8"
+   },
+   "vals": {
+    "a": 2,
+    "b": 2
+   },
+   "sec": 7,
+   "leader": 0
+  },
+  {
+   "dims": {
+    "d": "y",
+    "g": "8"
+   },
+   "vals": {
+    "a": 1,
+    "b": 1
+   },
+   "sec": 7,
+   "leader": 0
+  },
+  {
+   "dims": {
+    "d": "x",
+    "g": "9"
+   },
+   "vals": {
+    "a": 5,
+    "b": 4
+   },
+   "sec": 8,
+   "leader": 0
+  },
+  {
+   "dims": {
+    "d": "u",
+    "g": "9"
+   },
+   "vals": {
+    "a": 1,
+    "b": 6
+   },
+   "sec": 8,
+   "leader": 0
+  },
+  {
+   "dims": {
+    "d": "x",
+    "g": "10"
+   },
+   "vals": {
+    "a": 3,
+    "b": 1
+   },
+   "sec": 9,
+   "leader": 0
+  },
+  {
+   "dims": {
+    "d": "t",
+    "g": "10"
+   },
+   "vals": {
+    "a": 2,
+    "b": 2
+   },
+   "sec": 9,
+   "leader": 0
+  }
+ ],
+ "script": [
+  {
+   "op": "ins",
+   "n": 6
+  },
+  {
+   "op": "quiesce"
+  },
+  {
+   "op": "flushAll",
+   "f": 0
+  },
+  {
+   "op": "flushAll",
+   "f": 1
+  },
+  {
+   "op": "flushAll",
+   "f": 2
+  },
+  {
+   "op": "flushAll",
+   "f": 3
+  },
+  {
+   "op": "ins",
+   "n": 8
+  },
+  {
+   "op": "quiesce"
+  },
+  {
+   "op": "flushAll",
+   "f": 0
+  },
+  {
+   "op": "flushAll",
+   "f": 1
+  },
+  {
+   "op": "flushAll",
+   "f": 2
+  },
+  {
+   "op": "flushAll",
+   "f": 3
+  },
+  {
+   "op": "snap",
+   "f": 1
+  },
+  {
+   "op": "snap",
+   "f": 3
+  },
+  {
+   "op": "ins",
+   "n": 4
+  },
+  {
+   "op": "quiesce"
+  },
+  {
+   "op": "restartF",
+   "f": 0
+  },
+  {
+   "op": "crashF",
+   "f": 1
+  },
+  {
+   "op": "restartF",
+   "f": 2
+  },
+  {
+   "op": "ins",
+   "n": 2
+  }
+ ]
+}`,
+	`{
+ "name": "two leaders, offsets per source: a flush after entries of leader 1 only, then one after entries of leader 2 only, idle flush in between on the table that skipped them, restarts cleanly and from a crash image (every record must carry the offsets of BOTH sources; the offset file may be newer than the filestore header)",
+ "P": 2,
+ "leaders": 2,
+ "perPartition": 2,
+ "tables": [
+  {
+   "def": "a d,g",
+   "partitionBy": [
+    "d"
+   ]
+  },
+  {
+   "def": "b * where=2",
+   "partitionBy": []
+  }
+ ],
+ "points": [
+  {
+   "dims": {
+    "d": "x",
+    "g": "1"
+   },
+   "vals": {
+    "a": 1,
+    "b": 2
+   },
+   "sec": 0,
+   "leader": 0
+  },
+  {
+   "dims": {
+    "d": "y",
+    "g": "1"
+   },
+   "vals": {
+    "a": 2,
+    "b": 1
+   },
+   "sec": 0,
+   "leader": 0
+  },
+  {
+   "dims": {
+    "d": "z",
+    "g": "1"
+   },
+   "vals": {
+    "a": 3,
+    "b": 4
+   },
+   "sec": 1,
+   "leader": 0
+  },
+  {
+   "dims": {
+    "d": "w",
+    "g": "1"
+   },
+   "vals": {
+    "a": 1,
+    "b": 1
+   },
+   "sec": 1,
+   "leader": 0
+  },
+  {
+   "dims": {
+    "d": "x",
+    "g": "2"
+   },
+   "vals": {
+    "a": 5,
+    "b": 2
+   },
+   "sec": 2,
+   "leader": 1
+  },
+  {
+   "dims": {
+    "d": "y",
+    "g": "2"
+   },
+   "vals": {
+    "a": 2,
+    "b": 2
+   },
+   "sec": 2,
+   "leader": 1
+  },
+  {
+   "dims": {
+    "d": "z",
+    "g": "3"
+   },
+   "vals": {
+    "a": 4,
+    "b": 8
+   },
+   "sec": 3,
+   "leader": 1
+  },
+  {
+   "dims": {
+    "d": "w",
+    "g": "2"
+   },
+   "vals": {
+    "a": 1,
+    "b": 1
+   },
+   "sec": 3,
+   "leader": 1
+  },
+  {
+   "dims": {
+    "d": "x",
+    "g": "1"
+   },
+   "vals": {
+    "a": 1,
+    "b": 3
+   },
+   "sec": 4,
+   "leader": 1
+  },
+  {
+   "dims": {
+    "d": "v",
+    "g": "1"
+   },
+   "vals": {
+    "a": 2,
+    "b": 5
+   },
+   "sec": 4,
+   "leader": 1
+  },
+  {
+   "dims": {
+    "d": "u",
+    "g": "1"
+   },
+   "vals": {
+    "a": 7,
+    "b": 5
+   },
+   "sec": 5,
+   "leader": 0
+  },
+  {
+   "dims": {
+    "d": "y",
+    "g": "1"
+   },
+   "vals": {
+    "a": 2,
+    "b": 6
+   },
+   "sec": 5,
+   "leader": 0
+  },
+  {
+   "dims": {
+    "d": "x",
+    "g": "2"
+   },
+   "vals": {
+    "a": 3,
+    "b": 3
+   },
+   "sec": 6,
+   "leader": 0
+  },
+  {
+   "dims": {
+    "d": "x",
+    "g": "1"
+   },
+   "vals": {
+    "a": 1,
+    "b": 9
+   },
+   "sec": 6,
+   "leader": 1
+  },
+  {
+   "dims": {
+    "d": "s",
+    "g": "1"
+   },
+   "vals": {
+    "a": 2,
+    "b": 2
+   },
+   "sec": 7,
+   "leader": 0
+  },
+  {
+   "dims": {
+    "d": "r",
+    "g": "2"
+   },
+   "vals": {
+    "a": 1,
+    "b": 1
+   },
+   "sec": 7,
+   "leader": 1
+  }
+ ],
+ "script": [
+  {
+   "op": "ins",
+   "n": 4
+  },
+  {
+   "op": "quiesce"
+  },
+  {
+   "op": "flushAll",
+   "f": 0
+  },
+  {
+   "op": "flushAll",
+   "f": 1
+  },
+  {
+   "op": "flushAll",
+   "f": 2
+  },
+  {
+   "op": "flushAll",
+   "f": 3
+  },
+  {
+   "op": "ins",
+   "n": 4
+  },
+  {
+   "op": "quiesce"
+  },
+  {
+   "op": "flushAll",
+   "f": 0
+  },
+  {
+   "op": "flushAll",
+   "f": 1
+  },
+  {
+   "op": "flushAll",
+   "f": 2
+  },
+  {
+   "op": "flushAll",
+   "f": 3
+  },
+  {
+   "op": "snap",
+   "f": 0
+  },
+  {
+   "op": "snap",
+   "f": 2
+  },
+  {
+   "op": "ins",
+   "n": 4
+  },
+  {
+   "op": "quiesce"
+  },
+  {
+   "op": "flushAll",
+   "f": 1
+  },
+  {
+   "op": "flushAll",
+   "f": 3
+  },
+  {
+   "op": "crashF",
+   "f": 0
+  },
+  {
+   "op": "restartF",
+   "f": 1
+  },
+  {
+   "op": "crashF",
+   "f": 2
+  },
+  {
+   "op": "restartF",
+   "f": 3
+  },
+  {
+   "op": "ins",
+   "n": 4
+  }
+ ]
+}`,
 }
